@@ -61,6 +61,13 @@ theorem no_extension_from_lfsconfig (lines : List Bytes) (st : State) :
     (readSource Gen.safeKeys st ⟨lines, true⟩).exts = st.exts :=
   (foldl_safe Gen.safeKeys lines st).1
 
+/-- … for the whole run, wherever the `.lfsconfig` sources stand among Git's own: the extension table is the one
+    the trusted sources alone produce (a priority of `.lfsconfig` orders entries, it adds none) -/
+theorem extensions_come_from_git_config (srcs : List Source) :
+    (readGitConfig Gen.safeKeys srcs).exts
+      = (readGitConfig Gen.safeKeys (srcs.filter fun s => !s.onlySafe)).exts :=
+  exts_of_trusted_sources_only Gen.safeKeys srcs {} {} rfl
+
 /-- no documented key is in a dangerous family: program execution, credential helper, proxy, ssh
     command, transfer agent, filter extension, rewriting a remote's URL -/
 theorem documented_not_dangerous (key : Bytes) (h : Documented Gen.safeKeys key) : dangerous key = false := by
